@@ -115,7 +115,7 @@ def run(ctx):
             ctx.rng.shuffle(g)
             # always include the historical witnesses, then a seeded sample
             # download faults in all four (pair, kp_reuse) combinations, and a finalize error, always
-            must = [s for s in flowgrid.grid() if s["fault"] in ("cert-not-pem", "cert-other-key", "cert-truncated", "cert-chain-reversed")
+            must = [s for s in flowgrid.grid() if s["fault"].startswith("cert-")
                     or (s["fault"] in ("err:badCSR", "drop") and s["pos"][0] == "finalize")]
             g = must + g[:100]
         scs = [dict(s, idx=i) for i, s in enumerate(corpus + g)]
